@@ -15,6 +15,6 @@ CONSTANTS
   KnownDefects <- KD123
   Log <- LogLast
 CONSTRAINT HighWater
-INVARIANTS Inv_C09_SafetyObsUnexplained Inv_C09_GcUnexplained Inv_C10_CompleteUnexplained Report_D1 Report_D2 Report_D3 Report_D3S Report_E1 Report_E2 Report_E3
+INVARIANTS Inv_C09_SafetyObsUnexplained Inv_C09_GcUnexplained Inv_C10_CompleteUnexplainedT Report_D1 Report_D2 Report_D3 Report_D3S Report_E1 Report_E2 Report_E3 Report_E4 Report_E5
 POSTCONDITION Accepted
 CHECK_DEADLOCK FALSE
